@@ -256,7 +256,7 @@ class View:
             return "hidden-root-listed"
         if prod not in ALLOBJECTS_PRODS and (f, g) in self.superseded_urls:
             return "superseded-duplicate-not-rendered"
-        if prod == "inhierarchy" and f == "classIndex" and g in self.o and any(b in self.superseded for b in self.o[g]["bases"]):
+        if prod == "inhierarchy" and f == "classIndex" and g in self.o and any(b in self.superseded for b in self.o[g]["mro"]):
             return "superseded-duplicate-not-rendered"
         return "none"
 
@@ -409,7 +409,7 @@ def witness(case: Dict[str, Any], job: Dict[str, Any], inv: str, inst: Tuple[Any
     if inv in ("LinksResolve", "HiddenNoTrace"):
         facts.update({"target_superseded": (f, g) in v.superseded_urls, "target_hidden": v.targets_hidden(f, g),
                       "page_written_under_encoded_name": f in v.encfiles,
-                      "class_has_superseded_base": g in v.o and any(b in v.superseded for b in v.o[g]["bases"]),
+                      "class_has_superseded_base": g in v.o and any(b in v.superseded for b in v.o[g]["mro"]),
                       "target_hidden_root": f in v.hidden_root_files,
                       "member_doc_inherited": bool(member) and member in v.o and v.o[member]["docsrc"] != member,
                       "target_objects": sorted(i for i, o in v.o.items() if (o["file"], o["frag"]) == (f, g))[:4]})
